@@ -122,3 +122,21 @@ def python_binding(func, args, kwargs):
         return None
     ba.apply_defaults()
     return s, ba
+
+
+_SHADOWS = {}
+
+
+def interpreter_binding(sig, args, kwargs):
+    """How the running interpreter binds the call on a function with this parameter list ({name: value}), or None
+    if it rejects it.  Unlike inspect.Signature.bind (CPython 3.12) this accepts a keyword named like a defaulted
+    positional-only parameter left at its default, which Python routes to **kwargs."""
+    sh = _SHADOWS.get(sig)
+    if sh is None:
+        ns = {}
+        exec("def shadow(%s):\n    return locals()\n" % sig_text(sig), ns)
+        sh = _SHADOWS[sig] = ns["shadow"]
+    try:
+        return sh(*args, **kwargs)
+    except TypeError:
+        return None
